@@ -13,7 +13,15 @@ def words : Words :=
   { vendor := "vendor", vendorLit := "vendor", vendorDir := "vendor", src := "src", mainID := "main",
     defaultName := "_.go", noRoot := "..", vendorFirst := true, effCandidate := false, candMustBeDir := true,
     vendorFileStops := false, goFilesSkip := true, rejectVendor := true, mainRoot := true, relRoot := true,
-    relKey := true, relSub := true }
+    relKey := true, relSub := true, retry := false }
+
+/-- the facts before the repair of F16-11 (657b966): importSrc tried a failed resolution again from the
+    location of the main file -/
+def retryWords : Words :=
+  { vendor := "vendor", vendorLit := "vendor", vendorDir := "vendor", src := "src", mainID := "main",
+    defaultName := "_.go", noRoot := "..", vendorFirst := true, effCandidate := false, candMustBeDir := true,
+    vendorFileStops := false, goFilesSkip := true, rejectVendor := true, mainRoot := true, relRoot := true,
+    relKey := true, relSub := true, retry := true }
 
 /-- what the same extraction gives on the tree before those repairs (79ed061): used by the old-fact
     examples of Props/C16.lean, which reproduce the repaired findings in the model -/
@@ -21,7 +29,7 @@ def oldWords : Words :=
   { vendor := "vendor", vendorLit := "vendor", vendorDir := "vendor", src := "src", mainID := "main",
     defaultName := "_.go", noRoot := "absent", vendorFirst := true, effCandidate := true, candMustBeDir := false,
     vendorFileStops := true, goFilesSkip := false, rejectVendor := false, mainRoot := false, relRoot := false,
-    relKey := false, relSub := false }
+    relKey := false, relSub := false, retry := true }
 
 /-- order of the bookkeeping statements of importSrc, by first occurrence: the already-imported test, the
     rejection of vendor elements, the resolution, the cycle test, the mark, the recursion (gta), the registration -/
@@ -43,9 +51,12 @@ def wdCalls : List String := ["rootFromDir:filepath.Abs"]
 /-- gta.go importSpec does not rewrite the import path "x/x" of a source package any more (F16-7) -/
 def gtaCollapse : Bool := false
 
+/- importSrc re-read at 52cb9ff (green-r4..HEAD): 657b966 removes the second resolution attempt (fact `retry`),
+   and `interp.frame.setrunid(interp.runid())` before the execution of the package became
+   `defer interp.end(interp.begin())` (evaluation epochs, C09/C10): after the bookkeeping, not part of this model. -/
 /-- fingerprints (extract/common FuncHash) of the functions Model/Src.lean was transcribed from -/
 def sourceHashes : List (String × String) :=
-  [("Interpreter.importSrc", "6e5eed42efca49b4"),
+  [("Interpreter.importSrc", "e1c22856fd77f359"),
    ("Interpreter.rootFromSourceLocation", "c6cbb2779907acb0"),
    ("Interpreter.rootFromDir", "e99c87ffbfab385e"),
    ("Interpreter.mainRoot", "7fa06822003a1d76"),
